@@ -1,10 +1,12 @@
 """Free-text parts of MANIFEST.json."""
 HOOK_COMMITS = ["c7c6a9f"]
-FIX_COMMITS = ["e44ed8e", "9e8cd65", "2f294a3", "7529dc9", "48b06b7", "21a1bed", "47b50c4", "35f944d", "ba91c90", "3824d43"]
+FIX_COMMITS = ["e44ed8e", "9e8cd65", "2f294a3", "7529dc9", "48b06b7", "21a1bed", "47b50c4", "35f944d", "ba91c90", "3824d43", "b4402f4"]
 NOTES = ("Runtime monitoring only: every check executes the real code of /repo under seeded workloads and decides with an oracle "
          "over what was observed. VERIF_SEED changes every random choice; VERIF_TIER overrides the tier. Exit 2 = build/harness failure "
          "(never a VIOLATION line). Known findings: /verif/known_findings.json. See DESIGN.md.")
 ENGINES = [
+    {"name": "ve2e", "path": "harness/e2e", "serves_properties": ["C01", "C14", "C17", "C19"],
+     "kind_free_text": "Rust harness over the rusty-penguin library: real client_main_inner / run_listener / tls_connect on loopback sockets, raw HTTP client, scripted gate, scripted targets; quiescence witness from /proc"},
     {"name": "vmux", "path": "harness/mux", "serves_properties": ["C02", "C03", "C04", "C05", "C06", "C07", "C08", "C09", "C10", "C11", "C12", "C13", "C15", "C16", "C18", "C20"],
      "kind_free_text": "Rust harness over penguin-mux/cow-bytes/penguin-socks: PURE differential monitors, SIM (tokio current-thread, paused clock, in-memory WebSocket with wire tap and fault plan), THR, MICRO, Miri"},
 ]
@@ -125,5 +127,26 @@ TEXT = {
         "design_ref": "DESIGN.md §4 C13, appendix A",
         "level_text": "Each execution drives into_copy_bidirectional_with_buf with a seeded script of chunk sizes, Pending points (woken / never woken), partial writes, EOF and error positions on read/write/flush/shutdown, against a far application that finishes, aborts or starves; bytes, counts, half-close propagation, credit use and prompt error completion are checked.",
         "level_note": "Promptness is decided by quiescence in virtual time, not by wall clock.",
+    },
+    "C14": {
+        "engine": "ve2e (E2E)",
+        "technique": "differential runtime monitor over real sockets: every request cell is sent to a real run_listener and compared with an independent decision predicate and with the unknown-path twin response",
+        "design_ref": "DESIGN.md §4 C14",
+        "level_text": "All request cells with at most two deviations from the valid upgrade (1 082 per configuration) x 8 server configurations are sent as raw HTTP/1.1 over loopback; 101 iff the predicate, accept hash from our own SHA-1, a Ping must be answered behind every 101; every refused /ws (and /health, /version under obfs) response must equal the unknown-path response byte for byte (minus date) and the stub backend must have seen the same request.",
+        "level_note": "Cells with more than two deviations are sampled; HTTP/2 and TLS front-ends are not exercised here.",
+    },
+    "C17": {
+        "engine": "ve2e (E2E)",
+        "technique": "runtime monitor over real TLS handshakes: full configuration matrix executed through run_listener + tls_connect, recording client-certificate resolver, identity reload with a live connection",
+        "design_ref": "DESIGN.md §4 C17",
+        "level_text": "All 72 cells of the statement's matrix are executed as real handshakes followed by an HTTP exchange and compared with the reference truth table; a recording resolver observes whether the server asks for a certificate; reload cycles check that new handshakes see the new identity while an established connection keeps working. Exhaustive over the matrix.",
+        "level_note": "Key types: ECDSA P-256 (quick), plus P-384 and Ed25519 (thorough); native-tls build is not exercised.",
+    },
+    "C19": {
+        "engine": "ve2e (E2E) + vmux (PURE)",
+        "technique": "fault enumeration per connection attempt through a scripted gate in front of a real server, timing oracle with quiescence witness; exhaustive differential check of the back-off generator",
+        "design_ref": "DESIGN.md §4 C19",
+        "level_text": "Each script of per-attempt server behaviours is executed against the real client several times; attempt counts, lower/upper delay bounds against the reference back-off, exit conditions, listener availability, survival of a local conversation across an outage / stream-request timeout and self-reconnect after an orderly Close are checked. The back-off generator itself is compared exhaustively with a reference over small tuples and reset patterns.",
+        "level_note": "Real time: upper bounds are tolerant and fall back to inconclusive; scripts are a fixed set plus seeded ones in thorough.",
     },
 }
